@@ -204,8 +204,9 @@ Print Assumptions C20_cli_readers_are_translation_of_source.
 
 (** The frame header functions of the theorems above are the translation of src/protocol.rs `FrameHeader::{new, encode,
     decode, read_from}` as the source has them now: the twelve bytes in their order, the type byte converted before the
-    other fields are looked at, `validate` on the assembled header, exactly twelve bytes read and the magic pre-check
-    (Gen/ProtocolHeaderGen.v, Proofs/TieProtocolHeader.v). *)
+    other fields are looked at, `validate` on the assembled header, exactly twelve bytes read and the magic pre-check;
+    and of `Codec::read_message`: header, validate, ONE buffer of the validated length, exactly that many payload bytes,
+    the payload decoder (Gen/ProtocolHeaderGen.v, Proofs/TieProtocolHeader.v). *)
 Require Copia.Proofs.TieProtocolHeader.
 Theorem C20_header_functions_are_translation_of_source : TieProtocolHeader.protocol_header_is_translation.
 Proof. exact TieProtocolHeader.protocol_header_is_translation_holds. Qed.
